@@ -29,6 +29,15 @@ HARNESSES = [
     dict(name="c13dbg", backend="debug", src="harness/c13.cpp", repo_srcs=[_INIT],
          flags=[], driver_args=["debug", str(HW)]),
 ]
+# the same harness without sanitizers for two backends: ASan's quarantine keeps freed blocks from being handed out again, so
+# anything keyed on an address that the allocator reuses (the tasking handle is re-allocated on every re-initialisation)
+# behaves differently there
+HARNESSES += [
+    dict(name="c13tbb_plain", backend="tbb", src="harness/c13.cpp", repo_srcs=[_INIT], san=[],
+         flags=["-DRKCOMMON_TASKING_TBB"], libs=["-ltbb"], driver_args=["tbb", str(HW)]),
+    dict(name="c13dbg_plain", backend="debug", src="harness/c13.cpp", repo_srcs=[_INIT], san=[],
+         flags=[], driver_args=["debug", str(HW)]),
+]
 for _h in HARNESSES:
     _h["timeout"] = 1800  # whole batch; a single case is limited to 20 s by the harness itself
 
@@ -101,18 +110,23 @@ def gen_cases(rng, tier, h):
             c.append("pfor %d %d" % (rng.pick([0, 1, 5, 64]), rng.pick([0, 100])))
             c.append("num")
         ninit = rng.pick([1, 2, 2, 3, 3, 4, 6])
+        # sparse histories: runs of re-initialisations that are not queried in between (a stale answer kept from an
+        # earlier query shows only there)
+        sparse = rng.chance(0.3)
+        if sparse:
+            ninit = rng.pick([3, 4, 5, 6, 8])
         for k in range(ninit):
             if rng.chance(0.3 if k == 0 else 0.12):
                 n = rng.pick([0, -1, -1, -7])
             else:
                 n = _n_pos(rng)
             c.append("init %d" % n if rng.chance(0.8) else "init %d %d" % (n, rng.randrange(2)))
-            if rng.chance(0.85):
+            if rng.chance(0.3 if sparse else 0.85) or (sparse and k == ninit - 1):
                 c.append("num")
             eff = 1 if h["backend"] == "debug" else (n if n > 0 else HW)  # only for sizing the loops
-            for _ in range(rng.pick([0, 1, 1, 2, 3])):
+            for _ in range(rng.pick([0, 0, 0, 1]) if sparse else rng.pick([0, 1, 1, 2, 3])):
                 c.append(_loop(rng, eff))
-            if rng.chance(0.3):
+            if rng.chance(0.3) and not sparse:
                 c.append("num")
         # the same two observations from a thread other than the initialising one; always last in
         # a case so that the known OpenMP finding (classify) cannot mask anything after it
